@@ -78,12 +78,12 @@ def check(spec):
     for cid, cell in c.items():
         pts = [t.vertices[x.id] for x in cell.vertices]
         a = shoelace(pts)
-        if not math.isclose(areas[cid], a, rel_tol=1e-9, abs_tol=1e-9):
+        per = sum(math.dist(pts[i], pts[(i + 1) % len(pts)]) for i in range(len(pts)))
+        if not math.isclose(areas[cid], a, rel_tol=1e-9, abs_tol=1e-10 * per * per):       # tolerance relative to the cell's own size (any length unit)
             fails.append(("area", f"cell {cid}: get_area {areas[cid]} vs shoelace {a}"))
         s = cell.get_area_sign()
-        if s != (1 if a > 0 else -1 if a < 0 else 0):
+        if s != (1 if a > 0 else -1 if a < 0 else 0) and abs(a) > 1e-9 * per * per:
             fails.append(("sign", f"cell {cid}: sign {s} for area {a}"))
-        per = sum(math.dist(pts[i], pts[(i + 1) % len(pts)]) for i in range(len(pts)))
         if not math.isclose(cell.get_perimeter(), per, rel_tol=1e-9):
             fails.append(("perimeter", f"cell {cid}: {cell.get_perimeter()} vs {per}"))
         n = len(cell.vertices)
@@ -120,6 +120,10 @@ def specs(tier, seed):
         sp["shift"] = rnd.randrange(10 ** 6) if rnd.random() < 0.5 else 0
         if rnd.random() < 0.5:
             sp["xf"] = dict(angle=rnd.uniform(0, 6.28), shift=(rnd.uniform(-50, 50), rnd.uniform(-50, 50)), scale=10 ** rnd.uniform(-2, 2), reflect=rnd.random() < 0.3)
+        elif rnd.random() < 0.4:
+            # the same tissue in a very small or very large length unit (shift in that unit too, so that no precision is lost to the offset)
+            sc = 10 ** rnd.choice([rnd.uniform(-7, -3), rnd.uniform(3, 6)])
+            sp["xf"] = dict(angle=rnd.uniform(0, 6.28), shift=(sc * rnd.uniform(-5, 5), sc * rnd.uniform(-5, 5)), scale=sc, reflect=rnd.random() < 0.3)
         out.append(sp)
     return out
 
